@@ -240,7 +240,7 @@ fn spec_for_bytes(width: Option<usize>, prec: Option<usize>, left: bool) -> CFor
 
 // @ob id=C19.k.format_bytes props=C19,C03 kind=bounded tier=quick
 // @bound byte strings of length <= 3, width <= 4, precision <= 4 (all symbolic)
-// @clause formatting a byte string: precision truncates, the result is padded with spaces to the width on the left (on the right with '-'), never shortened by the width, and no width/length combination panics (width - len must not underflow)
+// @clause formatting a byte string: precision truncates (a '.' without digits is the precision 0), the result is padded with spaces to the width on the left (on the right with '-'), never shortened by the width, and no width/length combination panics (width - len must not underflow)
 // @fns CFormatSpec::format_bytes
 #[kani::proof]
 #[kani::unwind(7)]
@@ -257,7 +257,14 @@ fn c19_format_bytes() {
     let len: usize = kani::any();
     kani::assume(len <= 3);
     let left: bool = kani::any();
-    let spec = ManuallyDrop::new(spec_for_bytes(width, prec, left));
+    // "%.s": a '.' without digits is the precision 0
+    let dot: bool = kani::any();
+    let mut spec0 = spec_for_bytes(width, prec, left);
+    if dot {
+        spec0.precision = Some(CFormatPrecision::Dot);
+    }
+    let prec = if dot { Some(0) } else { prec };
+    let spec = ManuallyDrop::new(spec0);
     let out = ManuallyDrop::new(spec.format_bytes(&data[..len]));
     let shown = match prec {
         Some(p) if p < len => p,
@@ -285,6 +292,7 @@ fn c19_format_bytes() {
     }
     kani::cover!(width.is_some() && width.unwrap() < shown);
     kani::cover!(pad > 0 && left);
+    kani::cover!(dot && len > 0);
 }
 
 // @ob id=C19.k.check_specifiers props=C19 kind=bounded tier=quick
